@@ -311,7 +311,10 @@ class Env:
                 try:
                     p = os.path.abspath(os.fspath(fn))
                 except TypeError:
-                    return _asdf._vf_real_open(fn, *a, **kw)
+                    nm = getattr(fn, 'name', None)      # an open file object: served by the path it was opened from
+                    if not isinstance(nm, str):
+                        return _asdf._vf_real_open(fn, *a, **kw)
+                    p = os.path.abspath(nm)
                 for st in _asdf._vf_stores:
                     if st.enabled and p in st.store:
                         return st.open(p)
@@ -345,12 +348,17 @@ class Env:
         """Serve `cat` and return (redshift dir, list of halo_info paths in slab order)."""
         d = self.tree(cat.slab_ids)
         self.fake.store = {}
+        self._tick = getattr(self, '_tick', 10 ** 18) + 10 ** 6
         for rel, node in cat.files.items():
             if rel.startswith('halos/'):
                 p = os.path.join(d, SIM, rel)
             else:
                 p = os.path.join(d, 'cleaning', SIM, ZDIR, rel[len('clean/'):])
             self.fake.store[os.path.abspath(p)] = node
+            try:
+                os.utime(p, ns=(self._tick, self._tick))      # another catalog under the same path is a changed file (stat-validated caches)
+            except OSError:
+                pass
         zdir = os.path.join(d, SIM, 'halos', ZDIR)
         fns = [os.path.join(zdir, 'halo_info', f'halo_info_{si:03d}.asdf') for si in cat.slab_ids]
         return zdir, fns
